@@ -52,6 +52,10 @@ class Zoo(object):
             kw['coords'] = AffineCoordinates(affine_matrix(self.ndim))
         elif coords == 'identity':
             kw['coords'] = IdentityCoordinates(n_dim=self.ndim)
+        # narrow and non-numeric storage types (read under views by C04; carried through sessions by C02)
+        kw['f32'] = float_values(shape).astype(np.float32)
+        kw['i16'] = int_values(shape).astype(np.int16)
+        kw['when'] = (np.datetime64('2021-03-04T05:06:07') + np.arange(int(np.prod(shape))) * np.timedelta64(90, 'm')).reshape(shape)
         self.d = Data(label=label, **kw)
         self.d['g'] = self.d.id['f'] * 2 + self.d.id['i']
         self.f, self.i, self.c, self.c2, self.g = (self.d.id[k] for k in ('f', 'i', 'c', 'c2', 'g'))
@@ -69,7 +73,8 @@ class Zoo(object):
 
     def attributes(self):
         """name -> ComponentID for every attribute kind readable from d."""
-        out = {'stored_float': self.f, 'stored_int': self.i, 'categorical': self.c, 'derived': self.g}
+        out = {'stored_float': self.f, 'stored_int': self.i, 'categorical': self.c, 'derived': self.g,
+               'stored_float32': self.d.id['f32'], 'stored_int16': self.d.id['i16'], 'datetime': self.d.id['when']}
         for k, p in enumerate(self.pix):
             out['pixel%d' % k] = p
         for k, w in enumerate(self.wld):
